@@ -19,7 +19,7 @@ def shards(tier):
 
 def floors(tier):
     return {"cases": 5000, "padded": 1500, "pad_smaller_or_negative": 1500, "with_dot": 500, "error_paths": 1500,
-            "batches": 2000, "vocabulary_object_reused": 500, "vocabulary_grown_in_place": 1000, "with_trailing_dot": 200}
+            "batches": 2000, "vocabulary_object_reused": 500, "vocabulary_grown_in_place": 1000, "with_trailing_dot": 200, "default_argument_forms": 1000}
 
 
 def run(ctx):
@@ -74,6 +74,19 @@ def run(ctx):
         if len(hot) != len(exp) or any(len(row) != len(stoi) or sum(row) != 1 or row[e] != 1 or any(v not in (0, 1) for v in row)
                                        for row, e in zip(hot, exp)):
             ctx.finding("one-hot-encoding-wrong", payload, "one-hot rows do not have exactly one 1 at the label index")
+        if it % 5 == 0:
+            # documented defaults: pad_to_len=-1, enc_type='both'; keyword forms
+            dflt = call_guard(lambda: sf.selfies_to_encoding(s, stoi))
+            exp0 = [stoi[t] for t in toks]
+            if dflt[0] != "ok" or dflt[1][0] != exp0 or len(dflt[1][1]) != len(exp0):
+                ctx.finding("default-arguments-wrong", payload, repr(dflt)[:200])
+            kw = call_guard(lambda: sf.selfies_to_encoding(selfies=s, vocab_stoi=stoi, pad_to_len=pad, enc_type="label"))
+            if kw != ("ok", lab):
+                ctx.finding("keyword-call-differs", payload, repr(kw)[:200])
+            bd = call_guard(lambda: sf.batch_selfies_to_flat_hot([s], stoi))
+            if bd != ("ok", [[e for row in sf.selfies_to_encoding(s, stoi, -1, 'one_hot') for e in row]]):
+                ctx.finding("default-arguments-wrong", payload, "batch default pad: " + repr(bd)[:200])
+            ctx.count("default_argument_forms")
         a = call_guard(lambda: sf.selfies_to_encoding(s, stoi, pad, 'label'))
         b = call_guard(lambda: sf.selfies_to_encoding(s, stoi, pad, 'one_hot'))
         if a != ("ok", lab) or b != ("ok", hot):
